@@ -37,7 +37,9 @@ Print Assumptions c42_overlay_commit_changes_store.
 
 (** (2) Whatever an engine does in a session (any adaptive program: its next operation may depend
     on everything it has read so far), the whole ledger record — the three stores, their pending
-    batches, the merkle file, height, current hash, gas table — is the one the session started on. *)
+    batches, the merkle file, height, current hash, gas table, and the write sets of executed but not
+    yet submitted blocks (ExecuteResult.WriteSet, held by consensus between ExecuteBlock and
+    SubmitBlock) — is the one the session started on. *)
 Theorem c42_session_preserves_ledger : forall (R : Type) (p : prog R) (x : session),
   se_ledger (snd (run_prog p x)) = se_ledger x.
 Proof. intros R p x. apply run_prog_ledger. Qed.
@@ -109,6 +111,17 @@ Theorem c42_committing_variant_refuted :
 Proof. exact committing_variant_changes_ledger. Qed.
 Print Assumptions c42_committing_variant_refuted.
 
+(** (6b) ... and the overlay-recycling violation: if NewOverlayDB hands out (after Reset) the overlay
+    whose memdb escaped as a pending ExecuteResult.WriteSet, the pre-execution's committed writes
+    replace the pending block's write set (SubmitBlock would persist them instead); the entry point
+    as it is leaves that ledger, pending write set included, unchanged. *)
+Theorem c42_recycling_variant_refuted :
+  l_pending (snd (pre_execute_eip155_recycling pending_ledger writer_prog)) = [[([5; 1], [2])]] /\
+  snd (pre_execute_eip155_recycling pending_ledger writer_prog) <> pending_ledger /\
+  snd (pre_execute_eip155 pending_ledger writer_prog) = pending_ledger.
+Proof. exact recycling_variant_changes_pending. Qed.
+Print Assumptions c42_recycling_variant_refuted.
+
 (** (7) Tie to the source. Gen/PreExecGen.v lists, for each of the six entry points, every call
     (and every write to a receiver field or package variable, and every go statement) reachable
     through the functions of package ledgerstore, not descending into the getters of the
@@ -159,7 +172,8 @@ Definition ex_ledger : ledger :=
            (mkPStore [([0; 9], [1])] None)
            (mkPStore [([7], [7])] (Some [WPut [8] [8]]))
            [1; 2; 3] 4 [9; 9]
-           [("Deploy.Code.Gas"%string, 200000); ("Ontology.Contract.Create"%string, 20000000)].
+           [("Deploy.Code.Gas"%string, 200000); ("Ontology.Contract.Create"%string, 20000000)]
+           [[([5; 1], [77]); ([5; 6], [])]].
 
 Definition ex_prog : prog evm_res :=
   POp (SGet 5 [1]) (fun o1 =>
